@@ -73,7 +73,10 @@ def run(tier, replay=None):
         out.cov["transcription_binding"] = f"the transcribed loops agree exactly with the real plugins on all {res['compared']} comparable enumerated paths"
     rtp = os.path.join(C.WORK, "traces", f"c14_replaytrace_p_{tier}.ndjson")
     project(rt, rtp)
-    ev1, rej1 = C.validate_trace(out, "Trace_PathRewrite", "Trace_PathRewrite.cfg", rtp, "C14 (enumerated paths)", timeout=40000)
+    if tier == "quick":
+        ev1, rej1 = C.validate_trace(out, "Trace_PathRewrite", "Trace_PathRewrite.cfg", rtp, "C14 (enumerated paths)", timeout=40000)
+    else:
+        ev1, rej1 = C.validate_trace_parallel(out, "Trace_PathRewrite", "Trace_PathRewrite.cfg", rtp, "C14 (enumerated paths)", header_kinds=("rules",), n=10)
     out.cov["evaluations"] += res["behaviours"]
     # recorded analyses with several plugin settings/orders
     raw = os.path.join(C.WORK, "traces", f"c14_{tier}.ndjson")
@@ -81,7 +84,10 @@ def run(tier, replay=None):
     info = json.loads(pr.stdout.strip().splitlines()[-1])
     tp = os.path.join(C.WORK, "traces", f"c14_p_{tier}.ndjson")
     project(raw, tp)
-    events, rej = C.validate_trace(out, "Trace_PathRewrite", "Trace_PathRewrite.cfg", tp, "C14", timeout=40000)
+    if tier == "quick":
+        events, rej = C.validate_trace(out, "Trace_PathRewrite", "Trace_PathRewrite.cfg", tp, "C14", timeout=40000)
+    else:
+        events, rej = C.validate_trace_parallel(out, "Trace_PathRewrite", "Trace_PathRewrite.cfg", tp, "C14", header_kinds=("rules",), n=10)
     out.cov["traces_validated_against_impl"] += info["runs"] + res["behaviours"]
     out.cov["evaluations"] += info["runs"]
     prev, merges = None, set()
